@@ -166,6 +166,8 @@ def gen_case(rng: random.Random, cfg: str | None = None, max_nodes: int = 8, fra
         spec["via"] = "deepcopy"    # the object edited is a deep copy of the constructed one
     elif r_ < 0.22:
         spec["via"] = "saveload"    # … or has been saved and loaded again (internal format)
+    elif r_ < 0.32:
+        spec["via"] = "from_tracks"  # … or was converted from a plain Tracks object
     if rng.random() < 0.15:
         spec["time_dtype"] = rng.choice(["int64", "uint16", "uint8", "int32"])
     if spec.get("scale") is not None and rng.random() < 0.4:
